@@ -275,14 +275,30 @@ theorem deliverParked_pb (m : M) (p : Parked) (h : PBehind m.1) : PBehind (deliv
     | exact h
     | exact runWorkers_pb _ _ (handlePieceMessage_pb _ _ _ _ _ _ h)
 
-theorem handleMetadataData_pb (m : M) (k i len : Nat) (g : Bool) (h : PBehind m.1) :
-    PBehind (handleMetadataData m k i len g).1 := by
-  unfold handleMetadataData
+theorem hmdStart_pb (m : M) (h : PBehind m.1) : PBehind (hmdStart m).1 := by
+  unfold hmdStart
+  split
+  · simp only [onSt_fst]; exact stop_pb _ _ h
+  · refine h.of_eq ?_ ?_ ?_ <;> simp <;> done
+
+theorem hmdAdopt_pb (m : M) (h : PBehind m.1) : PBehind (hmdAdopt m).1 := by
+  unfold hmdAdopt
   dsimp only
   repeat' split
   all_goals first
-    | exact h
     | (simp only [onSt_fst]; exact stop_pb _ _ (h.of_eq rfl rfl rfl))
+    | exact hmdStart_pb _ (h.of_eq rfl rfl rfl)
+
+theorem handleMetadataData_pb (m : M) (k i len : Nat) (g : Bool) (h : PBehind m.1) :
+    PBehind (handleMetadataData m k i len g).1 := by
+  rw [handleMetadataData_eq]
+  split
+  · exact h
+  unfold hmdBlock
+  dsimp only
+  repeat' split
+  all_goals first
+    | exact hmdAdopt_pb _ (h.of_eq rfl rfl rfl)
     | (refine h.of_eq ?_ ?_ ?_ <;> simp <;> done)
 
 def Op.isVerify : Op → Bool
